@@ -519,7 +519,12 @@ pub fn resolve_version<'a>(
       ) {
         let is_best_version = maybe_best_version
           .as_ref()
-          .map(|best_version| (*best_version).cmp(version).is_lt())
+          .map(|best_version| {
+            (*best_version)
+              .cmp(version)
+              .then_with(|| best_version.build.cmp(&version.build))
+              .is_lt()
+          })
           .unwrap_or(true);
         if is_best_version {
           maybe_best_version = Some(version);
